@@ -158,11 +158,15 @@ class Bounds:
         return self.reflect_momenta(theta)[0]
 
     def reflect_momenta(self, theta: ndarray) -> tuple[ndarray, ndarray]:
+        # points already inside the limits are returned as they are (re-assembling
+        # them as lower + remainder loses their digits below the rounding of the limits)
+        inside = (theta >= self.lower) & (theta <= self.upper)
         if self.all_finite:
             q, rem = np_divmod(theta - self.lower, self.width)
             n = q % 2
             reflection = 1 - 2 * n
-            return self.lower + reflection * rem + n * self.width, reflection
+            folded = self.lower + reflection * rem + n * self.width
+            return where(inside, theta, folded), where(inside, 1.0, reflection)
 
         # one-sided (or absent) limits: the periodic fold is only defined for a finite
         # width, so a parameter with a single finite limit is mirrored in that limit
@@ -179,7 +183,7 @@ class Bounds:
         folded = where(below, 2 * self.lower - theta, folded)
         folded = where(above, 2 * self.upper - theta, folded)
         reflection = where(self.finite, reflection, where(below | above, -1, 1))
-        return folded, reflection
+        return where(inside, theta, folded), where(inside, 1.0, reflection)
 
     def inside(self, theta: ndarray) -> bool:
         return ((theta >= self.lower) & (theta <= self.upper)).all()
